@@ -176,7 +176,11 @@ def h_session(ctx, n=6, trading='1m', data=('3m',), fast=False, free_open=(1,), 
         if warm_rows:
             expn = [list(r) for r in warm_rows] + normalised(rows)
         if ctx.prove(len(final) == len(expn), 'C07:stored-1m-equal-input-up-to-normalisation', {'len': len(final), 'expected': len(expn)}):
-            ctx.prove(And(*[same_row(ctx, final[i], expn[i]) for i in range(len(expn))]), 'C07:stored-1m-equal-input-up-to-normalisation', {'fast': fast})
+            # each stored row equals the input row, or the input row with the documented normalisation applied (the fast simulator
+            # normalises only the first minute of a chunk; the statement permits the normalisation, it does not demand it)
+            raw = (warm_rows or []) + rows
+            ctx.prove(And(*[Or(same_row(ctx, final[i], expn[i]), same_row(ctx, final[i], raw[i])) for i in range(len(expn))]),
+                      'C07:stored-1m-equal-input-up-to-normalisation', {'fast': fast})
     ctx.event('session')
 
 
@@ -199,6 +203,7 @@ def _jobs(tier):
         add(n=5, trading='1m', data=['3m'], fast=True, free_open=[1], warm=3)
         add(n=6, trading='3m', data=[], fast=True, free_open=[3], warm=3)
         add(n=4, trading='1m', data=['3m'], fast=False, free_open=[], warm=0)
+        add(n=5, trading='1m', data=['3m'], fast=False, free_open=[], warm=3, entry=True)  # a fill inside a minute publishes a partial candle
     else:
         for fast in (False, True):
             add(n=7, trading='1m', data=['3m'], fast=fast, free_open=[1, 4], warm=3)
